@@ -36,7 +36,8 @@ FIXED_VALUES = [0.0, 1.0, -1.0, 1000.0, 0.001, 0.1, 3.7, 7]          # 7 is an i
 
 
 # display values the rounding helpers are tried on: integers, neighbours of integers, ties, small and large magnitudes
-ROUND_VALUES = [6, 7.0, -3, 0.0, 1, 100.0, 5.999999999999999, 6.000000000000001, 2.9999999999999996, -0.9999999999999999,
+NEG_ZEROS = [-0.0, -5e-324, -0.0, 0.0]            # -5e-324 * factor underflows to -0.0 for factors < 1
+ROUND_VALUES = [-0.0, 6, 7.0, -3, 0.0, 1, 100.0, 5.999999999999999, 6.000000000000001, 2.9999999999999996, -0.9999999999999999,
                 0.5, 1.5, 2.5, -2.5, 3.5, -0.5, 0.49999999999999994, 12345.678, -7.25, 1e-9, 4503599627370497.0, 1e17]
 
 
@@ -101,6 +102,8 @@ def gen_cases(ctx, rng: random.Random, tier: str):
                                  "y": qspec(cls, unit, a)})
             for op in ("neg", "abs", "pos"):
                 add("unary", {"k": "un", "op": op, "x": qspec(cls, unit, rng.choice([a, -abs(a), 0.0]))})
+                # an SI value of -0.0 (given as such, or as a product that underflows): signs of zero are compared bit for bit
+                add("unary-negzero", {"k": "un", "op": op, "x": qspec(cls, unit, NEG_ZEROS[(ui + len(op)) % len(NEG_ZEROS)])})
             add("as_unit", {"k": "as_unit", "x": qspec(cls, unit, a), "unit": other})
         # the rounding helpers on integral, near-integral and half-way display values of every unit
         for ui, unit in enumerate(units):
@@ -108,6 +111,8 @@ def gen_cases(ctx, rng: random.Random, tier: str):
             for v in pool:
                 for op in ("floor", "ceil", "trunc", "round"):
                     add("round", {"k": "round", "op": op, "x": qspec(cls, unit, v)})
+            for op in (("floor", "ceil", "trunc", "round") if tier != "quick" else [("floor", "ceil", "trunc", "round")[ui % 4]]):
+                add("round", {"k": "round", "op": op, "x": qspec(cls, unit, -0.0)})
         # malformed: undeclared unit, non-number value, bool, missing value
         base = ctx.dump["classes"][ctx.index[cls]]["base"]
         bad_units = ["", "no-such-unit", base + " ", units[-1].upper() + "?"]
